@@ -273,7 +273,25 @@ func (run *runner) topology(index int) {
 	if len(sh.q1.Exhausted) > 0 || (sh.q2 != nil && len(sh.q2.Exhausted) > 0) {
 		r.Count("shadow_stacks_with_budget_crossing", 1)
 	}
-	if spec.Deterministic {
+	raced := func(rs ...*stackResult) bool {
+		for _, x := range rs {
+			if x == nil {
+				continue
+			}
+			if x.q1.AbandonedTC > 0 || (x.q2 != nil && x.q2.AbandonedTC > 0) {
+				return true
+			}
+		}
+		return false
+	}
+	if spec.Deterministic && raced(off, sh) {
+		// sdns races two servers per lookup and one of them may be an
+		// exploration probe that stops at a truncated UDP reply; whichever
+		// reply comes first is taken. When the packet log shows a truncated
+		// exchange that was never carried over to TCP the client-visible
+		// reply depends on that race, with the firewall in any mode.
+		r.Count("off_shadow_pairs_excluded_abandoned_truncated_exchange", 1)
+	} else if spec.Deterministic {
 		r.Eval(1)
 		r.Count("off_shadow_pairs_compared", 1)
 		if sh.q1.reply != nil {
@@ -298,6 +316,8 @@ func (run *runner) topology(index int) {
 			switch {
 			case off2 == nil || sh2 == nil || off2.watchdog() || sh2.watchdog():
 				// already inconclusive
+			case raced(off2, sh2):
+				r.Count("off_shadow_pairs_excluded_abandoned_truncated_exchange", 1)
 			case replyDiff(off, off2) == "" && replyDiff(sh, sh2) == "" && replyDiff(off2, sh2) != "":
 				c := ReplayCase{Seed: r.Seed, Index: index, Topology: spec, Stack: &sh.cfg, Obs: sh.q1, Ref: off.q1,
 					Extra: map[string]any{"difference": d, "difference_on_rerun": replyDiff(off2, sh2), "off_q2": off.q2, "shadow_q2": sh.q2}}
@@ -334,13 +354,20 @@ func (run *runner) topology(index int) {
 				// an optional branch (DebitBestEffort: detached IPv6
 				// enrichment, …) stopped at the cap; the required work was
 				// done within the budget and the client got its answer
+				// (or a detached exploration probe was refused after the
+				// client had been answered)
 				r.Count("enforce_crossed_only_optional_work_reply_not_servfail", 1)
+				if e.cfg.V6 {
+					r.Count("enforce_crossed_only_optional_work_reply_not_servfail_ipv6access_on", 1)
+				}
 				continue
 			}
 			c := ReplayCase{Seed: r.Seed, Index: index, Topology: spec, Stack: &e.cfg, Obs: obs}
 			r.Eval(1)
 			over := obs.budgetEDE || !spec.Question.EDNS
-			if spec.Question.EDNS && len(obs.edeCodes) == 0 && resolvable {
+			if spec.Question.EDNS && len(obs.edeCodes) == 0 && resolvable && !e.cfg.V6 {
+				// (with ipv6access off there is no optional work: the crossing
+				// is a refused REQUIRED debit)
 				// honest servers, resolvable data: this SERVFAIL is the
 				// budget's doing, and the client negotiated EDNS
 				r.Violation("enforce/over-budget-servfail-without-ede",
@@ -375,23 +402,32 @@ func (run *runner) topology(index int) {
 			f := e.q2
 			r.Eval(1)
 			r.Count("followup_checks", 1)
-			fc := ReplayCase{Seed: r.Seed, Index: index, Topology: spec, Stack: &e.cfg, Obs: f, Ref: obs}
-			switch {
-			case f.hasEDE(dns.ExtendedErrorCodeCachedError):
-				r.Violation("enforce/over-budget-servfail-served-from-failure-cache",
-					fmt.Sprintf("%s under %s: the first client got the over-budget SERVFAIL %v; the identical question from another client was answered %s with EDE 13 (Cached Error) %v, upstream packets %d", spec.shape(), e.cfg.Label, obs.EDE, f.Rcode, f.EDE, f.Packets), fc)
-			case f.servfail() && f.Packets == 0 && len(f.Exhausted) == 0:
-				r.Violation("enforce/over-budget-servfail-followup-not-resolved-again",
-					fmt.Sprintf("%s under %s: the first client got the over-budget SERVFAIL %v; the identical question from another client was answered [%s ede=%v] without a single upstream packet and without crossing a budget of its own", spec.shape(), e.cfg.Label, obs.EDE, f.outcome(), f.EDE), fc)
-			default:
-				if f.Packets > 0 {
-					r.Count("followup_resolved_again_upstream", 1)
+			sig, what := run.followupVerdict(spec, e)
+			if sig != "" {
+				// a real upstream time-out on this loaded machine would be a
+				// genuine, cacheable failure: confirm on a second fresh stack
+				r.Count("followup_failures_rechecked", 1)
+				again := run.runStack(w, e.cfg)
+				if again == nil || again.watchdog() {
+					return
 				}
-				if !f.servfail() {
-					r.Count("followup_succeeded_with_warm_caches", 1)
-				} else if len(f.Exhausted) > 0 {
-					r.Count("followup_crossed_its_own_budget", 1)
+				sig2, _ := run.followupVerdict(spec, again)
+				if sig2 == sig {
+					fc := ReplayCase{Seed: r.Seed, Index: index, Topology: spec, Stack: &e.cfg, Obs: f, Ref: obs,
+						Extra: map[string]any{"confirmation_first_client": again.q1, "confirmation_second_client": again.q2}}
+					r.Violation(sig, what+" — reproduced on a second fresh stack", fc)
+				} else {
+					r.Inconclusive(fmt.Sprintf("topology %d %s: %s seen once (%s) and not again on a fresh stack", index, e.cfg.Label, sig, what))
 				}
+				continue
+			}
+			if f.Packets > 0 {
+				r.Count("followup_resolved_again_upstream", 1)
+			}
+			if !f.servfail() {
+				r.Count("followup_succeeded_with_warm_caches", 1)
+			} else if len(f.Exhausted) > 0 {
+				r.Count("followup_crossed_its_own_budget", 1)
 			}
 		}
 	}
@@ -588,4 +624,27 @@ func (run *runner) judgeReplies(w *world, res *stackResult, prior *stackResult) 
 			}
 		}
 	}
+}
+
+// followupVerdict judges the "not cached for other clients" clause on one
+// enforce stack: if the first client's reply is the over-budget SERVFAIL, the
+// identical question from the second client must not be answered from shared
+// failure state. "" = nothing to report (or not applicable to this run).
+func (run *runner) followupVerdict(spec *TopoSpec, e *stackResult) (sig, what string) {
+	o, f := e.q1, e.q2
+	if o == nil || f == nil || o.reply == nil || f.reply == nil || !o.Quiesced || !f.Quiesced {
+		return "", ""
+	}
+	if !(o.servfail() && len(o.Exhausted) > 0 && (o.budgetEDE || !spec.Question.EDNS)) {
+		return "", ""
+	}
+	switch {
+	case f.hasEDE(dns.ExtendedErrorCodeCachedError):
+		return "enforce/over-budget-servfail-served-from-failure-cache",
+			fmt.Sprintf("%s under %s: the first client got the over-budget SERVFAIL %v; the identical question from another client was answered %s with EDE 13 (Cached Error) %v, upstream packets %d", spec.shape(), e.cfg.Label, o.EDE, f.Rcode, f.EDE, f.Packets)
+	case f.servfail() && f.Packets == 0 && len(f.Exhausted) == 0:
+		return "enforce/over-budget-servfail-followup-not-resolved-again",
+			fmt.Sprintf("%s under %s: the first client got the over-budget SERVFAIL %v; the identical question from another client was answered [%s ede=%v] without a single upstream packet and without crossing a budget of its own", spec.shape(), e.cfg.Label, o.EDE, f.outcome(), f.EDE)
+	}
+	return "", ""
 }
